@@ -1,55 +1,161 @@
-// temporary probe
+// C01 harness: fixed-window quotas.
+//
+//	res suite: the real quota resource objects (built from quota YAML through
+//	           resources.NewResourceManagement, as the engine does) driven with a
+//	           chosen schedule of Inc / Allowed / Dec / ResetIn steps and of the
+//	           per-key bodies (verif_c01.go shims) of several requests under a
+//	           mock clock; observable = the verdict of each step.
+//	eng suite: the same quota files + one generated Limiter flow per quota loaded
+//	           through streams.NewStream().Initialize(); requests go through
+//	           ExecuteFlow one at a time; observable = let through / early response.
 package main
 
 import (
 	"fmt"
 	"os"
 	"path/filepath"
+	"sort"
+	"strconv"
+	"strings"
 	"time"
 
 	lunar_messages "lunar/engine/messages"
 	"lunar/engine/streams"
 	stream_config "lunar/engine/streams/config"
 	lunar_context "lunar/engine/streams/lunar-context"
+	public_types "lunar/engine/streams/public-types"
 	"lunar/engine/streams/resources"
+	quotaresource "lunar/engine/streams/resources/quota"
 	stream_types "lunar/engine/streams/types"
 	"lunar/engine/utils/environment"
+	"lunar/toolkit-core/clock"
 	context_manager "lunar/toolkit-core/context-manager"
 
 	"github.com/rs/zerolog"
+
+	c "verifharness/common"
 )
 
-const quotaYAML = `quotas:
-  - id: P
-    filter:
-      url: verif.test/*
-    strategy:
-      fixed_window:
-        max: 3
-        interval: 2
-        interval_unit: second
-internal_limits:
-  - id: C
-    parent_id: P
-    strategy:
-      fixed_window:
-        max: 2
-        interval: 10
-        interval_unit: second
-        group_by_header: x-g
-`
+const (
+	sec      = int64(time.Second)
+	baseSec  = int64(1_700_000_000)
+	costHdr  = "x-cost"
+	costPath = `$.request.headers["x-cost"]`
+)
 
-func flowYAML(name, quota, url string) string {
-	return fmt.Sprintf(`name: %[1]s
+var hdrNames = map[int]string{1: "x-g1", 2: "x-g2"}
+var valNames = map[int]string{0: "default", 1: "a", 2: "b", 3: ""}
+
+type QDef struct {
+	ID     int    `json:"id"`
+	Max    int64  `json:"max"`
+	Ival   int64  `json:"interval"`
+	Unit   string `json:"unit"`            // second | minute
+	Parent int    `json:"parent"`          // 0 = none
+	Group  int    `json:"group_by_header"` // 0 = none, else index into hdrNames
+	Custom bool   `json:"custom_counter"`
+}
+
+func (q QDef) wsec() int64 {
+	if q.Unit == "minute" {
+		return 60 * q.Ival
+	}
+	return q.Ival
+}
+
+type Req struct {
+	ID      int         `json:"id"`
+	Hdrs    map[int]int `json:"group_headers"` // header index -> value index
+	HasCost bool        `json:"has_cost_header"`
+	Cost    int64       `json:"cost"`
+}
+
+type Step struct {
+	Kind string `json:"kind"` // inc allowed dec resetin kinc kallowed kdec
+	Q    int    `json:"quota"`
+	R    int    `json:"request"` // index into Reqs
+	Now  int64  `json:"now_ns"`  // mock clock when the step runs
+	Out  string `json:"out"`     // none | true | false | already | increased | blocked | err
+}
+
+type Case struct {
+	Kind   string `json:"kind"` // res | eng
+	Forest []QDef `json:"forest"`
+	Reqs   []Req  `json:"requests"`
+	Steps  []Step `json:"steps"`
+	Seq    bool   `json:"one_at_a_time"` // res: the schedule is limiter calls one after the other
+}
+
+// ---------------------------------------------------------------- environment
+
+var (
+	mock    *clock.MockClock
+	shared  = lunar_context.NewMemoryState[[]byte]()
+	caseSeq int
+	curTime int64
+)
+
+func must(err error) {
+	if err != nil {
+		panic(err)
+	}
+}
+
+func setClock(ns int64) {
+	if ns == curTime {
+		return
+	}
+	mock.Set(time.Unix(0, ns))
+	curTime = ns
+}
+
+func quotaYAML(f []QDef) string {
+	var roots, kids strings.Builder
+	one := func(b *strings.Builder, q QDef) {
+		fmt.Fprintf(b, "  - id: q%d\n", q.ID)
+		if q.Parent != 0 {
+			fmt.Fprintf(b, "    parent_id: q%d\n", q.Parent)
+		} else {
+			b.WriteString("    filter:\n      url: verif.test/*\n")
+		}
+		kind := "fixed_window"
+		if q.Custom {
+			kind = "fixed_window_custom_counter"
+		}
+		fmt.Fprintf(b, "    strategy:\n      %s:\n        max: %d\n        interval: %d\n        interval_unit: %s\n",
+			kind, q.Max, q.Ival, q.Unit)
+		if q.Group != 0 {
+			fmt.Fprintf(b, "        group_by_header: %s\n", hdrNames[q.Group])
+		}
+		if q.Custom {
+			fmt.Fprintf(b, "        counter_value_path: '%s'\n", costPath)
+		}
+	}
+	for _, q := range f {
+		if q.Parent == 0 {
+			one(&roots, q)
+		} else {
+			one(&kids, q)
+		}
+	}
+	s := "quotas:\n" + roots.String()
+	if kids.Len() > 0 {
+		s += "internal_limits:\n" + kids.String()
+	}
+	return s
+}
+
+func flowYAML(q int) string {
+	return fmt.Sprintf(`name: f%[1]d
 filter:
-  url: %[3]s
+  url: verif.test/q%[1]d/*
 processors:
-  Lim%[1]s:
+  Lim%[1]d:
     processor: Limiter
     parameters:
       - key: quota_id
-        value: %[2]s
-  Gen%[1]s:
+        value: q%[1]d
+  Gen%[1]d:
     processor: GenerateResponse
     parameters:
       - key: status
@@ -66,17 +172,17 @@ flow:
           at: start
       to:
         processor:
-          name: Lim%[1]s
+          name: Lim%[1]d
     - from:
         processor:
-          name: Lim%[1]s
+          name: Lim%[1]d
           condition: above_limit
       to:
         processor:
-          name: Gen%[1]s
+          name: Gen%[1]d
     - from:
         processor:
-          name: Lim%[1]s
+          name: Lim%[1]d
           condition: below_limit
       to:
         stream:
@@ -85,7 +191,7 @@ flow:
   response:
     - from:
         processor:
-          name: Gen%[1]s
+          name: Gen%[1]d
       to:
         stream:
           name: globalStream
@@ -98,89 +204,822 @@ flow:
         stream:
           name: globalStream
           at: end
-`, name, quota, url)
+`, q)
 }
 
-func must(err error) {
-	if err != nil {
-		panic(err)
-	}
-}
-
-func main() {
-	zerolog.SetGlobalLevel(zerolog.Disabled)
-	repo := os.Getenv("VERIF_REPO")
-	if repo == "" {
-		repo = "/repo"
-	}
-	eng := filepath.Join(repo, "proxy/src/services/lunar-engine")
-	environment.SetProcessorsDirectory(filepath.Join(eng, "streams/processors/registry"))
+// fresh directories for one case
+func caseDirs(f []QDef, flows bool) {
+	caseSeq++
 	wd, _ := os.Getwd()
-	qd := filepath.Join(wd, "quotas")
-	fd := filepath.Join(wd, "flows")
-	pd := filepath.Join(wd, "pp")
+	root := filepath.Join(wd, "case")
+	must(os.RemoveAll(root))
+	qd, fd, pd := filepath.Join(root, "quotas"), filepath.Join(root, "flows"), filepath.Join(root, "path_params")
 	for _, d := range []string{qd, fd, pd} {
 		must(os.MkdirAll(d, 0o755))
 	}
-	must(os.WriteFile(filepath.Join(qd, "q.yaml"), []byte(quotaYAML), 0o644))
-	must(os.WriteFile(filepath.Join(fd, "fC.yaml"), []byte(flowYAML("fC", "C", "verif.test/c/*")), 0o644))
-	must(os.WriteFile(filepath.Join(fd, "fP.yaml"), []byte(flowYAML("fP", "P", "verif.test/p/*")), 0o644))
+	must(os.WriteFile(filepath.Join(qd, "quotas.yaml"), []byte(quotaYAML(f)), 0o644))
+	if flows {
+		for _, q := range f {
+			must(os.WriteFile(filepath.Join(fd, fmt.Sprintf("f%d.yaml", q.ID)), []byte(flowYAML(q.ID)), 0o644))
+		}
+	}
 	environment.SetQuotasDirectory(qd)
 	environment.SetStreamsFlowsDirectory(fd)
 	environment.SetPathParamsDirectory(pd)
-	clk := context_manager.Get().SetMockClock().GetMockClock()
-	t0 := time.Unix(1_700_000_000, 300_000_000)
-	clk.Set(t0)
+}
 
-	// resource level
+func onRequest(k *Case, r Req, q int) lunar_messages.OnRequest {
+	h := map[string]string{}
+	for hi, vi := range r.Hdrs {
+		h[hdrNames[hi]] = valNames[vi]
+	}
+	if r.HasCost {
+		h[costHdr] = strconv.FormatInt(r.Cost, 10)
+	}
+	id := fmt.Sprintf("c%d-r%d", caseSeq, r.ID)
+	return lunar_messages.OnRequest{
+		ID: id, SequenceID: id, Method: "GET", Scheme: "https",
+		URL: fmt.Sprintf("verif.test/q%d/x", q), Path: fmt.Sprintf("/q%d/x", q), Headers: h,
+	}
+}
+
+// ---------------------------------------------------------------- execution
+
+func execRes(k *Case) {
+	caseDirs(k.Forest, false)
 	rm, err := resources.NewResourceManagement()
 	must(err)
-	shared := lunar_context.NewMemoryState[[]byte]()
-	mk := func(id, g string) *lunar_messages.OnRequest {
-		h := map[string]string{}
-		if g != "" {
-			h["x-g"] = g
-		}
-		return &lunar_messages.OnRequest{ID: id, SequenceID: id, Method: "GET", Scheme: "https", URL: "verif.test/c/x", Path: "/c/x", Headers: h}
-	}
-	qC, err := rm.GetQuota("C", "")
-	must(err)
-	lim := func(id, g string, at time.Duration) {
-		clk.Set(t0.Add(at))
-		s := stream_types.NewRequestAPIStream(*mk(id, g), shared)
-		must(qC.Inc(s))
-		ok, err := qC.Allowed(s)
+	quotas := map[int]public_types.QuotaResourceI{}
+	for _, q := range k.Forest {
+		qo, err := rm.GetQuota(fmt.Sprintf("q%d", q.ID), "")
 		must(err)
-		fmt.Printf("res  %s g=%s at=%v allowed=%v\n", id, g, at, ok)
+		quotas[q.ID] = qo
 	}
-	lim("r1", "a", 0)
-	lim("r2", "b", 0)
-	lim("r3", "b", 0)
-	lim("r4", "a", 100*time.Millisecond) // parent full: refused, but charged to C/a
-	lim("r5", "a", 1800*time.Millisecond) // parent rolled (stored start floor => 1.7s after t0-0.3), C/a has 2 charged
+	streamsOf := make([]public_types.APIStreamI, len(k.Reqs))
+	for i, r := range k.Reqs {
+		streamsOf[i] = stream_types.NewRequestAPIStream(onRequest(k, r, 1), shared)
+	}
+	for i := range k.Steps {
+		s := &k.Steps[i]
+		setClock(s.Now)
+		qo := quotas[s.Q]
+		var st public_types.APIStreamI
+		if s.Kind != "resetin" {
+			st = streamsOf[s.R]
+		}
+		s.Out = "none"
+		switch s.Kind {
+		case "inc":
+			if err := qo.Inc(st); err != nil {
+				s.Out = "err"
+			}
+		case "allowed":
+			ok, err := qo.Allowed(st)
+			s.Out = strconv.FormatBool(ok)
+			if err != nil {
+				s.Out = "err"
+			}
+		case "dec":
+			if err := qo.Dec(st); err != nil {
+				s.Out = "err"
+			}
+		case "resetin":
+			qo.ResetIn()
+		case "kinc":
+			r, ok := quotaresource.VerifC01KeyInc(qo, st)
+			s.Out = r
+			if !ok {
+				s.Out = "err"
+			}
+		case "kallowed":
+			b, ok := quotaresource.VerifC01KeyAllowed(qo, st)
+			s.Out = strconv.FormatBool(b)
+			if !ok {
+				s.Out = "err"
+			}
+		case "kdec":
+			if !quotaresource.VerifC01KeyDec(qo, st) {
+				s.Out = "err"
+			}
+		default:
+			panic("bad step kind " + s.Kind)
+		}
+	}
+}
 
-	// engine level
-	clk.Set(t0)
+func execEng(k *Case) {
+	caseDirs(k.Forest, true)
 	st, err := streams.NewStream()
 	must(err)
 	must(st.Initialize())
-	eng2 := func(id, g string, at time.Duration) {
-		clk.Set(t0.Add(at))
-		s := stream_types.NewRequestAPIStream(*mk(id, g), shared)
+	for i := range k.Steps {
+		s := &k.Steps[i]
+		setClock(s.Now)
+		req := onRequest(k, k.Reqs[s.R], s.Q)
+		api := stream_types.NewRequestAPIStream(req, shared)
 		acts := &stream_config.StreamActions{Request: &stream_config.RequestStream{}, Response: &stream_config.ResponseStream{}}
-		err := st.ExecuteFlow(s, acts)
+		if err := st.ExecuteFlow(api, acts); err != nil {
+			s.Out = "err"
+			continue
+		}
 		early := false
 		for _, a := range acts.Request.Actions {
 			if a.IsEarlyReturnType() {
 				early = true
 			}
 		}
-		fmt.Printf("eng  %s g=%s at=%v err=%v nreq=%d nresp=%d early=%v\n", id, g, at, err, len(acts.Request.Actions), len(acts.Response.Actions), early)
+		s.Out = strconv.FormatBool(!early)
+		if !early {
+			// the provider answered: run the response side (OnResponseFinish)
+			resp := stream_types.NewAPIStream("resp-"+req.ID, public_types.StreamTypeResponse, shared)
+			resp.SetRequest(stream_types.NewRequest(req))
+			resp.SetResponse(stream_types.NewResponse(lunar_messages.OnResponse{
+				ID: req.ID, SequenceID: req.ID, Method: "GET", URL: req.URL, Status: 200, Headers: map[string]string{},
+			}))
+			acts2 := &stream_config.StreamActions{Request: &stream_config.RequestStream{}, Response: &stream_config.ResponseStream{}}
+			if err := st.ExecuteFlow(resp, acts2); err != nil {
+				s.Out = "err"
+			}
+		}
 	}
-	eng2("r1", "a", 0)
-	eng2("r2", "b", 0)
-	eng2("r3", "b", 0)
-	eng2("r4", "a", 100*time.Millisecond)
-	eng2("r5", "a", 1800*time.Millisecond)
-	eng2("r6", "b", 1800*time.Millisecond)
+}
+
+// ---------------------------------------------------------------- Coq terms
+
+func optZ(i int) string {
+	if i == 0 {
+		return "None"
+	}
+	return c.Some(c.Z(int64(i)))
+}
+
+func coqForest(f []QDef) string {
+	return c.MapList(f, func(q QDef) string {
+		return c.Tuple(c.Z(int64(q.ID)), fmt.Sprintf("mkq %s %s %s %s %s", c.Z(q.Max), c.Z(q.wsec()),
+			optZ(q.Parent), optZ(q.Group), c.B(q.Custom)))
+	})
+}
+
+func coqReq(r Req) string {
+	his := make([]int, 0, len(r.Hdrs))
+	for h := range r.Hdrs {
+		his = append(his, h)
+	}
+	sort.Ints(his)
+	items := make([]string, len(his))
+	for i, h := range his {
+		items[i] = c.Tuple(c.Z(int64(h)), c.Z(int64(r.Hdrs[h])))
+	}
+	cost := int64(0)
+	if r.HasCost {
+		cost = r.Cost
+	}
+	return fmt.Sprintf("(mkr %s %s %s)", c.Z(int64(r.ID)), c.List(items), c.Z(cost))
+}
+
+func coqOut(s string) string {
+	switch s {
+	case "none":
+		return "ONone"
+	case "true":
+		return "OBool true"
+	case "false":
+		return "OBool false"
+	case "already":
+		return "ORes AlreadyIncreased"
+	case "increased":
+		return "ORes Increased"
+	case "blocked":
+		return "ORes Blocked"
+	}
+	return "OBad"
+}
+
+func coqRes(k *Case) string {
+	acts := c.MapList(k.Steps, func(s Step) string {
+		q := c.Z(int64(s.Q))
+		switch s.Kind {
+		case "inc":
+			return fmt.Sprintf("Inc %s %s %s", q, coqReq(k.Reqs[s.R]), c.Z(s.Now))
+		case "allowed":
+			return fmt.Sprintf("Allowed %s %s", q, coqReq(k.Reqs[s.R]))
+		case "dec":
+			return fmt.Sprintf("Dec %s %s", q, coqReq(k.Reqs[s.R]))
+		case "resetin":
+			return fmt.Sprintf("ResetIn %s %s", q, c.Z(s.Now))
+		case "kinc":
+			return fmt.Sprintf("KInc %s %s %s", q, coqReq(k.Reqs[s.R]), c.Z(s.Now))
+		case "kallowed":
+			return fmt.Sprintf("KAllowed %s %s", q, coqReq(k.Reqs[s.R]))
+		case "kdec":
+			return fmt.Sprintf("KDec %s %s", q, coqReq(k.Reqs[s.R]))
+		}
+		panic("kind")
+	})
+	outs := c.MapList(k.Steps, func(s Step) string { return coqOut(s.Out) })
+	return c.Tuple(coqForest(k.Forest), acts, outs)
+}
+
+func coqEng(k *Case) string {
+	h := c.MapList(k.Steps, func(s Step) string {
+		return c.Tuple(c.Z(int64(s.Q)), coqReq(k.Reqs[s.R]), c.Z(s.Now))
+	})
+	outs := c.MapList(k.Steps, func(s Step) string { return c.B(s.Out == "true") })
+	return c.Tuple(coqForest(k.Forest), h, outs)
+}
+
+// ---------------------------------------------------------------- monitor glue
+
+func byID(f []QDef) map[int]QDef {
+	m := map[int]QDef{}
+	for _, q := range f {
+		m[q.ID] = q
+	}
+	return m
+}
+
+// keys (own first, root last) and costs of request r sent to quota q
+func chainKeys(f map[int]QDef, q int, r Req, cfg map[string]keyCfg) ([]string, []int64) {
+	var keys []string
+	var costs []int64
+	for q != 0 {
+		d := f[q]
+		g := "default"
+		if d.Group != 0 {
+			if v, ok := r.Hdrs[d.Group]; ok {
+				g = valNames[v]
+			}
+		}
+		k := fmt.Sprintf("q%d/%s", q, g)
+		cfg[k] = keyCfg{W: d.wsec() * sec, Max: d.Max}
+		cost := int64(1)
+		if d.Custom {
+			cost = 0
+			if r.HasCost {
+				cost = r.Cost
+			}
+		}
+		keys = append(keys, k)
+		costs = append(costs, cost)
+		q = d.Parent
+	}
+	return keys, costs
+}
+
+// sequential histories (engine level, and resource-level limiter histories)
+func monitorCaseSeq(k *Case) *monHit {
+	f := byID(k.Forest)
+	cfg := map[string]keyCfg{}
+	var evs []seqEvent
+	if k.Kind == "eng" {
+		for i, s := range k.Steps {
+			if s.Out == "err" {
+				return &monHit{"error:ExecuteFlow", "requests are processed", fmt.Sprintf("step %d failed", i)}
+			}
+			keys, costs := chainKeys(f, s.Q, k.Reqs[s.R], cfg)
+			evs = append(evs, seqEvent{idx: i, t: s.Now, admitted: s.Out == "true", chain: keys, costs: costs})
+		}
+	} else {
+		for i := 0; i+1 < len(k.Steps); i++ {
+			s := k.Steps[i]
+			if s.Kind != "inc" {
+				continue
+			}
+			a := k.Steps[i+1]
+			keys, costs := chainKeys(f, s.Q, k.Reqs[s.R], cfg)
+			evs = append(evs, seqEvent{idx: i, t: s.Now, admitted: a.Out == "true", chain: keys, costs: costs})
+		}
+	}
+	return monitorSeq(evs, cfg)
+}
+
+// arbitrary schedules: only the bound, over the chain-level verdicts; a request
+// let through is attributed to one of the instants at which it was counted
+func monitorCaseSched(k *Case) *monHit {
+	f := byID(k.Forest)
+	cfg := map[string]keyCfg{}
+	per := map[string][]mPoint{}
+	type inc struct {
+		t    int64
+		keys map[string]bool
+	}
+	incs := map[int][]inc{} // per request
+	for i, s := range k.Steps {
+		if s.Out == "err" {
+			return &monHit{"error:quota-step", "steps succeed", fmt.Sprintf("step %d failed", i)}
+		}
+		switch s.Kind {
+		case "inc", "kinc":
+			keys, _ := chainKeys(f, s.Q, k.Reqs[s.R], cfg)
+			if s.Kind == "kinc" {
+				keys = keys[:1]
+			}
+			m := map[string]bool{}
+			for _, x := range keys {
+				m[x] = true
+			}
+			incs[s.R] = append(incs[s.R], inc{s.Now, m})
+		case "allowed":
+			if s.Out != "true" {
+				continue
+			}
+			keys, costs := chainKeys(f, s.Q, k.Reqs[s.R], cfg)
+			for j, key := range keys {
+				cands := []int64{}
+				for _, in := range incs[s.R] {
+					if in.keys[key] {
+						cands = append(cands, in.t)
+					}
+				}
+				p := mPoint{ord: i, weight: costs[j], cands: cands}
+				if len(cands) > 0 {
+					p.t = cands[len(cands)-1]
+				}
+				per[key] = append(per[key], p)
+			}
+		}
+	}
+	return boundAny(per, cfg)
+}
+
+// ---------------------------------------------------------------- generators
+
+// styles: 0 = anything; 1 = custom counters (costs around max, refusals at a
+// roll-over); 2 = a chain whose ancestors fill up before the descendants (F-C01)
+func genForest(r *c.Rng, style int) []QDef {
+	switch style {
+	case 1:
+		f := []QDef{{ID: 1, Max: int64(r.Range(1, 3)), Ival: int64(r.Range(1, 2)), Unit: "second", Custom: true}}
+		if r.Chance(1, 3) {
+			f[0].Group = 1
+		}
+		if r.Chance(1, 2) {
+			f = append(f, QDef{ID: 2, Max: int64(r.Range(1, 3)), Ival: int64(r.Range(1, 3)), Unit: "second",
+				Parent: 1, Custom: r.Bool()})
+		}
+		return f
+	case 2:
+		n := r.Range(2, 3)
+		var f []QDef
+		for id := 1; id <= n; id++ {
+			// ancestors: small max, short window; descendants: room, long window
+			q := QDef{ID: id, Unit: "second", Parent: id - 1}
+			q.Max = int64(r.Range(1, 2) + (id-1)*r.Range(0, 1))
+			q.Ival = int64(r.Range(1, 2) + (id-1)*r.Range(0, 2))
+			if r.Chance(1, 3) {
+				q.Group = r.Range(1, 2)
+			}
+			f = append(f, q)
+		}
+		if r.Chance(1, 3) {
+			f = append(f, QDef{ID: n + 1, Max: int64(r.Range(1, 3)), Ival: int64(r.Range(1, 3)), Unit: "second", Parent: r.Range(1, n)})
+		}
+		return f
+	}
+	n := c.Pick(r, []int{1, 1, 2, 2, 2, 3, 3, 4})
+	depth := map[int]int{}
+	var f []QDef
+	for id := 1; id <= n; id++ {
+		q := QDef{ID: id, Max: int64(c.Pick(r, []int{1, 1, 2, 2, 3, 4})), Ival: int64(r.Range(1, 3)), Unit: "second"}
+		if r.Chance(1, 40) {
+			q.Ival, q.Unit = 1, "minute"
+		}
+		if id > 1 && r.Chance(3, 4) {
+			var cand []int
+			for p := 1; p < id; p++ {
+				if depth[p] < 3 {
+					cand = append(cand, p)
+				}
+			}
+			if len(cand) > 0 {
+				q.Parent = c.Pick(r, cand)
+			}
+		}
+		depth[id] = depth[q.Parent] + 1
+		if r.Chance(2, 5) {
+			q.Group = r.Range(1, 2)
+		}
+		q.Custom = r.Chance(1, 6)
+		f = append(f, q)
+	}
+	return f
+}
+
+func pickStyle(r *c.Rng) int {
+	switch x := r.Intn(10); {
+	case x < 6:
+		return 0
+	case x < 8:
+		return 1
+	}
+	return 2
+}
+
+func genReqs(r *c.Rng, n int, style int, f []QDef) []Req {
+	reqs := make([]Req, n)
+	var maxes []int
+	for _, q := range f {
+		if q.Custom {
+			maxes = append(maxes, int(q.Max))
+		}
+	}
+	for i := range reqs {
+		q := Req{ID: i + 1, Hdrs: map[int]int{}}
+		for h := 1; h <= 2; h++ {
+			if r.Chance(3, 4) {
+				if style == 0 {
+					q.Hdrs[h] = c.Pick(r, []int{1, 1, 1, 2, 2, 0, 3})
+				} else {
+					q.Hdrs[h] = c.Pick(r, []int{1, 1, 1, 2})
+				}
+			}
+		}
+		if r.Chance(2, 3) || style == 1 && r.Chance(4, 5) {
+			q.HasCost = true
+			q.Cost = int64(c.Pick(r, []int{0, 1, 1, 2, 2, 3, 5}))
+			if len(maxes) > 0 && r.Chance(2, 3) {
+				m := c.Pick(r, maxes)
+				q.Cost = int64(c.Pick(r, []int{m - 1, m, m, m + 1, m + 1, 1}))
+				if q.Cost < 0 {
+					q.Cost = 0
+				}
+			}
+		}
+		reqs[i] = q
+	}
+	return reqs
+}
+
+type clockGen struct {
+	r       *c.Rng
+	cur     int64
+	anchors []int64 // whole seconds at which a window may have started
+	ws      []int64 // window lengths (seconds) of the forest
+}
+
+func newClockGen(r *c.Rng, f []QDef) *clockGen {
+	g := &clockGen{r: r}
+	g.cur = baseSec*sec + c.Pick(r, []int64{0, 1, 300_000_000, 500_000_000, 999_999_999, 999_999_998})
+	for _, q := range f {
+		g.ws = append(g.ws, q.wsec())
+	}
+	return g
+}
+
+// next clock reading (never decreasing), aimed at window edges +-1 ns
+func (g *clockGen) next(first bool) int64 {
+	r := g.r
+	if first {
+		return g.cur
+	}
+	var cands []int64
+	add := func(t int64) {
+		if t >= g.cur {
+			cands = append(cands, t)
+		}
+	}
+	nextSec := (g.cur/sec + 1) * sec
+	switch r.Intn(10) {
+	case 0, 1, 2:
+		add(g.cur)
+	case 3:
+		add(g.cur + 1)
+		add(g.cur + int64(r.Intn(int(sec/2))))
+	case 4:
+		add(nextSec - 1)
+		add(nextSec)
+		add(nextSec + 1)
+	default:
+		for _, a := range g.anchors {
+			for _, w := range g.ws {
+				e := (a + w) * sec
+				add(e - 1)
+				add(e)
+				add(e + 1)
+				add(e + 300_000_000)
+			}
+			add(a*sec + sec - 1)
+		}
+	}
+	if len(cands) == 0 {
+		cands = []int64{g.cur, g.cur + int64(r.Intn(int(sec))), nextSec}
+	}
+	// prefer the nearest edges
+	sort.Slice(cands, func(i, j int) bool { return cands[i] < cands[j] })
+	n := len(cands)
+	if n > 6 {
+		n = 6
+	}
+	g.cur = cands[r.Intn(n)]
+	return g.cur
+}
+
+func (g *clockGen) counted() { g.anchors = append(g.anchors, g.cur/sec) }
+
+func genRes(r *c.Rng) Case {
+	style := pickStyle(r)
+	k := Case{Kind: "res", Forest: genForest(r, style)}
+	k.Reqs = genReqs(r, r.Range(2, 6), style, k.Forest)
+	home := make([]int, len(k.Reqs))
+	leaf := k.Forest[len(k.Forest)-1].ID
+	for i := range home {
+		home[i] = c.Pick(r, k.Forest).ID
+		if style != 0 && r.Chance(2, 3) {
+			home[i] = leaf
+		}
+	}
+	g := newClockGen(r, k.Forest)
+	n := r.Range(4, 14)
+	k.Seq = r.Chance(1, 4) || style != 0 && r.Chance(1, 3)
+	first := true
+	if k.Seq {
+		// limiter calls one after the other (fresh request each time while they last)
+		for i := 0; len(k.Steps)+2 <= n+2 && i < len(k.Reqs)+2; i++ {
+			ri := i % len(k.Reqs)
+			if i >= len(k.Reqs) {
+				// a request id seen before comes again (retry through the same limiter)
+				ri = r.Intn(len(k.Reqs))
+			}
+			t := g.next(first)
+			first = false
+			g.counted()
+			k.Steps = append(k.Steps, Step{Kind: "inc", Q: home[ri], R: ri, Now: t},
+				Step{Kind: "allowed", Q: home[ri], R: ri, Now: t})
+		}
+		return k
+	}
+	for len(k.Steps) < n {
+		ri := r.Intn(len(k.Reqs))
+		q := home[ri]
+		if r.Chance(1, 8) {
+			q = c.Pick(r, k.Forest).ID
+		}
+		t := g.next(first)
+		first = false
+		switch x := r.Intn(100); {
+		case x < 30:
+			g.counted()
+			k.Steps = append(k.Steps, Step{Kind: "inc", Q: q, R: ri, Now: t})
+			if r.Chance(1, 2) {
+				k.Steps = append(k.Steps, Step{Kind: "allowed", Q: q, R: ri, Now: t})
+			}
+		case x < 58:
+			k.Steps = append(k.Steps, Step{Kind: "allowed", Q: q, R: ri, Now: t})
+		case x < 64:
+			k.Steps = append(k.Steps, Step{Kind: "dec", Q: q, R: ri, Now: t})
+		case x < 80:
+			g.counted()
+			k.Steps = append(k.Steps, Step{Kind: "kinc", Q: q, R: ri, Now: t})
+		case x < 92:
+			k.Steps = append(k.Steps, Step{Kind: "kallowed", Q: q, R: ri, Now: t})
+		case x < 95:
+			k.Steps = append(k.Steps, Step{Kind: "kdec", Q: q, R: ri, Now: t})
+		default:
+			k.Steps = append(k.Steps, Step{Kind: "resetin", Q: q, Now: t})
+		}
+	}
+	return k
+}
+
+func genEng(r *c.Rng) Case {
+	style := pickStyle(r)
+	k := Case{Kind: "eng", Forest: genForest(r, style), Seq: true}
+	n := r.Range(3, 9)
+	k.Reqs = genReqs(r, n, style, k.Forest)
+	g := newClockGen(r, k.Forest)
+	// most requests go to one or two quotas so that windows fill up
+	fav := c.Pick(r, k.Forest).ID
+	if style != 0 {
+		fav = k.Forest[len(k.Forest)-1].ID
+		if len(k.Forest) > 3 {
+			fav = k.Forest[2].ID
+		}
+	}
+	for i := 0; i < n; i++ {
+		q := fav
+		if r.Chance(1, 3) {
+			q = c.Pick(r, k.Forest).ID
+		}
+		t := g.next(i == 0)
+		g.counted()
+		k.Steps = append(k.Steps, Step{Kind: "limiter", Q: q, R: i, Now: t})
+	}
+	return k
+}
+
+// the design-phase reproduction of F-C01 and its minimal form
+func fc01Cases() []Case {
+	t0 := baseSec*sec + 300_000_000
+	a := map[int]int{1: 1}
+	b := map[int]int{1: 2}
+	big := Case{Kind: "eng", Seq: true,
+		Forest: []QDef{{ID: 1, Max: 3, Ival: 2, Unit: "second"}, {ID: 2, Max: 2, Ival: 10, Unit: "second", Parent: 1, Group: 1}},
+		Reqs:   []Req{{ID: 1, Hdrs: a}, {ID: 2, Hdrs: b}, {ID: 3, Hdrs: b}, {ID: 4, Hdrs: a}, {ID: 5, Hdrs: a}, {ID: 6, Hdrs: b}},
+		Steps: []Step{{Kind: "limiter", Q: 2, R: 0, Now: t0}, {Kind: "limiter", Q: 2, R: 1, Now: t0}, {Kind: "limiter", Q: 2, R: 2, Now: t0},
+			{Kind: "limiter", Q: 2, R: 3, Now: t0 + 100_000_000}, {Kind: "limiter", Q: 2, R: 4, Now: t0 + 1_800_000_000},
+			{Kind: "limiter", Q: 2, R: 5, Now: t0 + 1_800_000_000}}}
+	small := Case{Kind: "eng", Seq: true,
+		Forest: []QDef{{ID: 1, Max: 1, Ival: 1, Unit: "second"}, {ID: 2, Max: 2, Ival: 10, Unit: "second", Parent: 1}},
+		Reqs:   []Req{{ID: 1, Hdrs: map[int]int{}}, {ID: 2, Hdrs: map[int]int{}}, {ID: 3, Hdrs: map[int]int{}}},
+		Steps: []Step{{Kind: "limiter", Q: 2, R: 0, Now: baseSec * sec}, {Kind: "limiter", Q: 2, R: 1, Now: baseSec*sec + 100_000_000},
+			{Kind: "limiter", Q: 2, R: 2, Now: baseSec*sec + 1_500_000_000}}}
+	return []Case{small, big}
+}
+
+// a refused restart (cost > max exactly when the stored window is over) followed
+// by cheap requests: what is (not) stored on the refusal path decides the rest
+func restartRefusalCases() []Case {
+	var out []Case
+	for _, kind := range []string{"eng", "res"} {
+		for m := int64(1); m <= 3; m++ {
+			for w := int64(1); w <= 2; w++ {
+				for _, first := range []int64{0, 300_000_000} {
+					for _, delta := range []int64{0, 1, 400_000_000} {
+						for c1 := int64(1); c1 <= m; c1++ {
+							t0 := baseSec*sec + first
+							t1 := (baseSec+w)*sec + delta
+							k := Case{Kind: kind, Seq: true,
+								Forest: []QDef{{ID: 1, Max: m, Ival: w, Unit: "second", Custom: true}},
+								Reqs: []Req{{ID: 1, Hdrs: map[int]int{}, HasCost: true, Cost: c1},
+									{ID: 2, Hdrs: map[int]int{}, HasCost: true, Cost: m + 1},
+									{ID: 3, Hdrs: map[int]int{}, HasCost: true, Cost: m - c1 + 1},
+									{ID: 4, Hdrs: map[int]int{}, HasCost: true, Cost: m}}}
+							ts := []int64{t0, t1, t1 + 1, t1 + 1}
+							for i, t := range ts {
+								if kind == "eng" {
+									k.Steps = append(k.Steps, Step{Kind: "limiter", Q: 1, R: i, Now: t})
+								} else {
+									k.Steps = append(k.Steps, Step{Kind: "inc", Q: 1, R: i, Now: t}, Step{Kind: "allowed", Q: 1, R: i, Now: t})
+								}
+							}
+							out = append(out, k)
+						}
+					}
+				}
+			}
+		}
+	}
+	return out
+}
+
+// thorough: every interleaving of the limiter steps of 3 requests on a grouped
+// child under a parent x every non-decreasing choice of 3 instants out of 7 x
+// group choice
+func exhaustive(o *c.Out) {
+	forest := []QDef{{ID: 1, Max: 2, Ival: 2, Unit: "second"}, {ID: 2, Max: 1, Ival: 1, Unit: "second", Parent: 1, Group: 1}}
+	b := baseSec * sec
+	grid := []int64{b + 500_000_000, b + sec - 1, b + sec, b + sec + 1, b + 2*sec - 1, b + 2*sec, b + 2*sec + 1}
+	var orders [][]int
+	var perm func(cur []int, left [3]int)
+	perm = func(cur []int, left [3]int) {
+		if len(cur) == 6 {
+			orders = append(orders, append([]int(nil), cur...))
+			return
+		}
+		for r := 0; r < 3; r++ {
+			if left[r] > 0 {
+				l2 := left
+				l2[r]--
+				perm(append(cur, r), l2)
+			}
+		}
+	}
+	perm(nil, [3]int{2, 2, 2})
+	for _, ord := range orders {
+		for g2 := 1; g2 <= 2; g2++ {
+			for g3 := 1; g3 <= 2; g3++ {
+				for i1 := 0; i1 < len(grid); i1++ {
+					for i2 := i1; i2 < len(grid); i2++ {
+						for i3 := i2; i3 < len(grid); i3++ {
+							k := Case{Kind: "res", Forest: forest,
+								Reqs: []Req{{ID: 1, Hdrs: map[int]int{1: 1}}, {ID: 2, Hdrs: map[int]int{1: g2}}, {ID: 3, Hdrs: map[int]int{1: g3}}}}
+							ts := []int64{grid[i1], grid[i2], grid[i3]}
+							done := [3]int{}
+							ni := 0
+							cur := ts[0]
+							for _, r := range ord {
+								if done[r] == 0 {
+									cur = ts[ni]
+									ni++
+									k.Steps = append(k.Steps, Step{Kind: "inc", Q: 2, R: r, Now: cur})
+								} else {
+									k.Steps = append(k.Steps, Step{Kind: "allowed", Q: 2, R: r, Now: cur})
+								}
+								done[r]++
+							}
+							run(o, k)
+						}
+					}
+				}
+			}
+		}
+	}
+}
+
+// ---------------------------------------------------------------- driver
+
+func nontrivial(k *Case) bool {
+	// a refusal, and a later admission on the same quota id at least 1 s later
+	// (a window rolled over, or another group had room)
+	for i, s := range k.Steps {
+		if s.Out == "false" || s.Out == "blocked" {
+			for _, u := range k.Steps[i+1:] {
+				if u.Q == s.Q && (u.Out == "true" || u.Out == "increased") && u.Now-s.Now >= sec {
+					return true
+				}
+			}
+		}
+	}
+	return false
+}
+
+func run(o *c.Out, k Case) {
+	var idx int
+	var hit *monHit
+	suite := k.Kind
+	switch k.Kind {
+	case "res":
+		execRes(&k)
+		idx = o.Case("res", coqRes(&k), k, nontrivial(&k))
+		if k.Seq {
+			hit = monitorCaseSeq(&k)
+		} else {
+			hit = monitorCaseSched(&k)
+		}
+	case "eng":
+		execEng(&k)
+		idx = o.Case("eng", coqEng(&k), k, nontrivial(&k))
+		hit = monitorCaseSeq(&k)
+	default:
+		panic("bad case kind " + k.Kind)
+	}
+	o.Count("suite=" + suite)
+	o.Count(fmt.Sprintf("quotas=%d", len(k.Forest)))
+	o.Count(fmt.Sprintf("steps=%02d", len(k.Steps)))
+	depth := 0
+	f := byID(k.Forest)
+	for _, q := range k.Forest {
+		d := 0
+		for p := q.ID; p != 0; p = f[p].Parent {
+			d++
+		}
+		if d > depth {
+			depth = d
+		}
+	}
+	o.Count(fmt.Sprintf("depth=%d", depth))
+	for _, s := range k.Steps {
+		o.Count("out=" + s.Out)
+		if k.Kind == "res" {
+			o.Count("step=" + s.Kind)
+		}
+	}
+	o.MonitorChecked(1)
+	if hit != nil {
+		o.Hit(c.Hit{Suite: suite, Index: idx, Signature: hit.sig, Demanded: hit.demanded, Observed: hit.observed, Case: k})
+	}
+}
+
+func main() {
+	zerolog.SetGlobalLevel(zerolog.Disabled)
+	o := c.NewOut("C01")
+	o.DeclareSuite("res", "From Verif Require Import C01.Model.", "case_res", "run_res")
+	o.DeclareSuite("eng", "From Verif Require Import C01.Model.", "case_eng", "run_eng")
+	o.Rule("res: random quota forests (1-4 quotas, depth <= 3, max 1-4, window 1-3 s or 1 min, 0-1 grouping header per quota, " +
+		"unit or custom-counter cost) x schedules of 4-14 Inc/Allowed/Dec/ResetIn and per-key KInc/KAllowed/KDec steps of 2-6 requests " +
+		"(a quarter of them limiter calls one after the other), clock readings aimed at s*1e9-1, s*1e9, s*1e9+1, (s+W)*1e9+-1 and " +
+		"sub-second first instants; eng: same forests, one Limiter flow per quota, 3-9 sequential requests through ExecuteFlow; " +
+		"distinct = distinct (forest, schedule, observed verdicts); non-trivial = contains a refusal and, at least 1 s later, an admission on the same quota id")
+	repo := os.Getenv("VERIF_REPO")
+	if repo == "" {
+		repo = "/repo"
+	}
+	environment.SetProcessorsDirectory(filepath.Join(repo, "proxy/src/services/lunar-engine/streams/processors/registry"))
+	mock = context_manager.Get().SetMockClock().GetMockClock()
+	setClock(baseSec * sec)
+
+	var k Case
+	if _, ok := o.ReplayCase(&k); ok {
+		run(o, k)
+		o.Finish()
+		return
+	}
+	for _, k := range fc01Cases() {
+		run(o, k)
+	}
+	for _, k := range restartRefusalCases() {
+		run(o, k)
+	}
+	rr := o.Rng.Fork(1)
+	for i := 0; i < o.Scale(1500, 20000, 6000); i++ {
+		run(o, genRes(rr))
+	}
+	re := o.Rng.Fork(2)
+	for i := 0; i < o.Scale(500, 4000, 2500); i++ {
+		run(o, genEng(re))
+	}
+	if o.Thorough() {
+		exhaustive(o)
+	}
+	o.Finish()
 }
